@@ -11,7 +11,8 @@ RULE = ("programs = {single site, 3 sites in one test with the bad one first/mid
         "site kind {good, slack, wrong, empty, wrong-key, loop-bad, loop-good} x flag configuration (all 16 category subsets, "
         "plus report / review all-y / review all-n / short-report / disable); each case is one real pytest session; expected "
         "outcome per test is known to the generator; non-trivial = the program contains a bad site and a category flag or "
-        "review makes the comparison itself succeed (the case the property is about); distinct = (program, flags)")
+        "review makes the comparison itself succeed (the case the property is about); distinct = (program, flags)"
+        "; plus every value sequence (length 2, thorough 3) at one shared call site for six operations, and 3-session histories with the bytecode cache on")
 ASSUMPTIONS = ["pytest 9.1.1 / CPython 3.12 (is_pytest_compatible() is true, assertion rewriting stays on)",
                "outcomes are read from the -rA short summary lines and the exit status of the session"]
 TASK_TIMEOUT = 600
